@@ -76,6 +76,18 @@ class DecodeState:
             odxraise("The bit length of FLOAT64 values must be 64 bits")
             bit_length = 64
 
+        if bit_length % 8 != 0 and base_data_type in (DataType.A_BYTEFIELD, DataType.A_ASCIISTRING,
+                                                      DataType.A_UTF8STRING,
+                                                      DataType.A_UNICODE2STRING):
+            # this can e.g. happen for PARAM-LENGTH-INFO-TYPE objects
+            # if the value of the length key is not a multiple of 8
+            odxraise(
+                f"The bit length of {base_data_type.value} objects must "
+                f"be a multiple of 8 (is: {bit_length})", DecodeError)
+            bit_length -= bit_length % 8
+            if bit_length == 0:
+                return base_data_type.python_type()
+
         byte_length = (bit_length + self.cursor_bit_position + 7) // 8
         if self.cursor_byte_position + byte_length > len(self.coded_message):
             raise DecodeError(f"Expected a longer message.")
